@@ -571,6 +571,274 @@ template <template <typename> class Base, bool Unregister> struct signal_sys
 template <typename T> using plain_base = fcppt::signal::base<T>;
 template <typename T> using unreg_base = fcppt::signal::unregister::base<T>;
 
+// ---------------------------------------------------------------- re-entrant use of signals
+// Callbacks that act on the signal they are called from: callback i may destroy another connection
+// j != i while the signal is being emitted (the emission must then not invoke j if j's turn has not
+// come, and must go on with the connection after it); an unregister callback may look at the signal
+// (empty(), emitting it again): the dying connection is not part of the signal any more.  A
+// connection whose callback is executing is never destroyed (that would destroy a running
+// std::function: outside any contract), which both sides get from the same `active` counters.
+// Exhaustive over: number of connections, one behaviour per callback, one behaviour per unregister
+// callback, the first operation (emit / drop c), and whether the signal was moved before.
+// Reference: a recursive interpreter over the alive set.
+template <typename Sig> struct emit_traits;
+template <> struct emit_traits<int(int)>
+{
+  static constexpr bool is_void = false;
+};
+template <> struct emit_traits<void(int)>
+{
+  static constexpr bool is_void = true;
+};
+
+template <typename Signature, template <typename> class Base, bool Unregister> struct reentrant
+{
+  using sig = fcppt::signal::object<Signature, Base>;
+  static constexpr bool is_void = emit_traits<Signature>::is_void;
+  enum { U_NONE, U_OBSERVE, U_EMIT, U_END };
+
+  int n = 0;
+  std::vector<int> beh;   // beh[i] == i: nothing; else: destroy connection beh[i]
+  std::vector<int> ubeh;  // U_*
+  // real side
+  std::unique_ptr<sig> s;
+  std::vector<fcppt::signal::optional_auto_connection> conns;
+  std::vector<char> alive;
+  std::vector<int> active;
+  std::vector<int> unreg;
+  std::vector<int> log; // encoded events
+  // model side
+  std::vector<char> m_alive;
+  std::vector<int> m_active;
+  std::vector<int> m_log;
+  bool quiet = false; // final observation: behaviours switched off
+
+  static int ev_call(int i) { return 100 + i; }
+  static int ev_unreg(int i, bool empty) { return 200 + i * 2 + (empty ? 1 : 0); }
+  static int ev_ret(int v) { return 100000 + v; }
+
+  static std::unique_ptr<sig> make()
+  {
+    if constexpr (is_void)
+      return std::make_unique<sig>();
+    else
+      return std::make_unique<sig>(typename sig::combiner_function{[](int a, int b) { return (a * 7 + b) % 9973; }});
+  }
+
+  void real_emit()
+  {
+    if constexpr (is_void)
+      (*s)(1);
+    else
+      log.push_back(ev_ret((*s)(typename sig::initial_value{3}, 1)));
+  }
+
+  void real_drop(int j)
+  {
+    auto tmp = std::move(conns[static_cast<std::size_t>(j)]);
+    conns[static_cast<std::size_t>(j)] = fcppt::signal::optional_auto_connection();
+    alive[static_cast<std::size_t>(j)] = 0;
+    tmp = fcppt::signal::optional_auto_connection(); // the connection dies here
+  }
+
+  void connect(int i)
+  {
+    auto body = [this, i](int) {
+      log.push_back(ev_call(i));
+      ++active[static_cast<std::size_t>(i)];
+      int const j = beh[static_cast<std::size_t>(i)];
+      if (!quiet && j != i && alive[static_cast<std::size_t>(j)] && active[static_cast<std::size_t>(j)] == 0)
+        real_drop(j);
+      --active[static_cast<std::size_t>(i)];
+    };
+    typename sig::function cb = [&] {
+      if constexpr (is_void)
+        return typename sig::function{[body](int a) { body(a); }};
+      else
+        return typename sig::function{[body, i](int a) {
+          body(a);
+          return i + 1;
+        }};
+    }();
+    if constexpr (Unregister)
+      conns[static_cast<std::size_t>(i)] = fcppt::signal::optional_auto_connection(s->connect(
+          std::move(cb), fcppt::signal::unregister::function{[this, i] {
+            ++unreg[static_cast<std::size_t>(i)];
+            int const u = quiet ? U_NONE : ubeh[static_cast<std::size_t>(i)];
+            if (u != U_NONE)
+              log.push_back(ev_unreg(i, s->empty()));
+            if (u == U_EMIT)
+              real_emit();
+          }}));
+    else
+      conns[static_cast<std::size_t>(i)] = fcppt::signal::optional_auto_connection(s->connect(std::move(cb)));
+  }
+
+  // ---- model
+  void model_drop(int j)
+  {
+    m_alive[static_cast<std::size_t>(j)] = 0;
+    if (!Unregister || quiet)
+      return;
+    int const u = ubeh[static_cast<std::size_t>(j)];
+    if (u != U_NONE)
+      m_log.push_back(ev_unreg(j, std::count(m_alive.begin(), m_alive.end(), char(1)) == 0));
+    if (u == U_EMIT)
+      model_emit();
+  }
+  void model_emit()
+  {
+    int acc = 3;
+    for (int i = 0; i < n; ++i)
+    {
+      if (!m_alive[static_cast<std::size_t>(i)])
+        continue;
+      m_log.push_back(ev_call(i));
+      ++m_active[static_cast<std::size_t>(i)];
+      int const j = beh[static_cast<std::size_t>(i)];
+      if (!quiet && j != i && m_alive[static_cast<std::size_t>(j)] && m_active[static_cast<std::size_t>(j)] == 0)
+        model_drop(j);
+      --m_active[static_cast<std::size_t>(i)];
+      acc = (acc * 7 + (i + 1)) % 9973;
+    }
+    if (!is_void)
+      m_log.push_back(ev_ret(acc));
+  }
+
+  static std::string show(std::vector<int> const &l)
+  {
+    std::string o;
+    for (int e : l)
+    {
+      if (e >= 100000)
+        o += "ret=" + std::to_string(e - 100000) + " ";
+      else if (e >= 200)
+        o += "unreg" + std::to_string((e - 200) / 2) + ((e & 1) ? "(empty) " : "(non-empty) ");
+      else
+        o += "call" + std::to_string(e - 100) + " ";
+    }
+    return o;
+  }
+
+  // first: -1 = emit, otherwise drop that connection; pre: 0 nothing, 1 move-construct, 2 move-assign into a fresh signal
+  void one(int first, int pre)
+  {
+    s = make();
+    conns.clear();
+    conns.resize(static_cast<std::size_t>(n));
+    alive.assign(static_cast<std::size_t>(n), 1);
+    active.assign(static_cast<std::size_t>(n), 0);
+    unreg.assign(static_cast<std::size_t>(n), 0);
+    log.clear();
+    m_alive.assign(static_cast<std::size_t>(n), 1);
+    m_active.assign(static_cast<std::size_t>(n), 0);
+    m_log.clear();
+    quiet = false;
+    for (int i = 0; i < n; ++i)
+      connect(i);
+    if (pre == 1)
+      s = std::make_unique<sig>(std::move(*s));
+    else if (pre == 2)
+    {
+      std::unique_ptr<sig> t = make();
+      *t = std::move(*s);
+      s = std::move(t);
+    }
+    if (first < 0)
+    {
+      real_emit();
+      model_emit();
+    }
+    else
+    {
+      real_drop(first);
+      model_drop(first);
+    }
+    VRT_CHECK(log == m_log, "signal:reentrant", "events [%s], expected [%s]", show(log).c_str(), show(m_log).c_str());
+    // quiet observation of what is left
+    quiet = true;
+    log.clear();
+    m_log.clear();
+    real_emit();
+    model_emit();
+    VRT_CHECK(log == m_log, "signal:reentrant_after", "afterwards events [%s], expected [%s]", show(log).c_str(), show(m_log).c_str());
+    VRT_CHECK(s->empty() == (std::count(m_alive.begin(), m_alive.end(), char(1)) == 0), "signal:reentrant_empty", "empty() wrong afterwards");
+    for (int i = 0; i < n; ++i)
+    {
+      VRT_CHECK(bool(alive[static_cast<std::size_t>(i)]) == bool(m_alive[static_cast<std::size_t>(i)]), "signal:reentrant_alive", "connection %d alive=%d, model %d", i,
+                int(alive[static_cast<std::size_t>(i)]), int(m_alive[static_cast<std::size_t>(i)]));
+      if (Unregister)
+        VRT_CHECK(unreg[static_cast<std::size_t>(i)] == (alive[static_cast<std::size_t>(i)] ? 0 : 1), "signal:reentrant_unregister_count",
+                  "unregister callback of connection %d ran %d times (alive=%d)", i, unreg[static_cast<std::size_t>(i)], int(alive[static_cast<std::size_t>(i)]));
+    }
+    // the signal dies before the remaining connections on even cases, after them on odd ones
+    if ((first + pre) & 1)
+    {
+      s.reset();
+      conns.clear();
+    }
+    else
+    {
+      conns.clear();
+      s.reset();
+    }
+  }
+
+  static void run_all(char const *name, int max_n)
+  {
+    for (int n = 1; n <= max_n; ++n)
+    {
+      reentrant r;
+      r.n = n;
+      long nb = 1, nu = 1;
+      for (int i = 0; i < n; ++i)
+      {
+        nb *= n;
+        nu *= Unregister ? U_END : 1;
+      }
+      for (long b = 0; b < nb; ++b)
+        for (long u = 0; u < nu; ++u)
+        {
+          r.beh.assign(static_cast<std::size_t>(n), 0);
+          r.ubeh.assign(static_cast<std::size_t>(n), 0);
+          long bb = b, uu = u;
+          bool trivial = true;
+          for (int i = 0; i < n; ++i)
+          {
+            r.beh[static_cast<std::size_t>(i)] = int(bb % n);
+            bb /= n;
+            r.ubeh[static_cast<std::size_t>(i)] = int(uu % U_END);
+            uu /= U_END;
+            if (r.beh[static_cast<std::size_t>(i)] != i)
+              trivial = false;
+          }
+          for (int first = -1; first < n; ++first)
+            for (int pre = 0; pre < 3; ++pre)
+            {
+              std::string const text = [&] {
+                std::string d = std::string(name) + " n=" + std::to_string(n) + " callbacks:";
+                for (int i = 0; i < n; ++i)
+                  d += r.beh[static_cast<std::size_t>(i)] == i ? " -" : " drop" + std::to_string(r.beh[static_cast<std::size_t>(i)]);
+                d += " unregister:";
+                for (int i = 0; i < n; ++i)
+                  d += r.ubeh[static_cast<std::size_t>(i)] == U_NONE ? " -" : r.ubeh[static_cast<std::size_t>(i)] == U_OBSERVE ? " observe" : " emit";
+                d += first < 0 ? " first=emit" : " first=drop" + std::to_string(first);
+                d += pre == 0 ? "" : pre == 1 ? " after move-construction" : " after move-assignment";
+                return d;
+              }();
+              if (!vrt::begin_text("signal_reentrant", text))
+                continue;
+              vrt::maybe_sample();
+              r.one(first, pre);
+              vrt::count("reentrant_scenarios");
+              if (!trivial)
+                vrt::nontrivial();
+            }
+        }
+    }
+  }
+};
+
 int main(int argc, char **argv)
 {
   vrt::parse_args(argc, argv);
@@ -599,5 +867,11 @@ int main(int argc, char **argv)
     vrt::hist::explorer<signal_sys<unreg_base, true>> e("signal_unregister", l);
     e.run();
   }, 7200);
+  vrt::shard("signal_reentrant_plain", [th] {
+    reentrant<void(int), plain_base, false>::run_all("void(int)/plain", th ? 6 : 5);
+    reentrant<int(int), plain_base, false>::run_all("int(int)/plain", th ? 6 : 5);
+  });
+  vrt::shard("signal_reentrant_unregister_void", [th] { reentrant<void(int), unreg_base, true>::run_all("void(int)/unregister", th ? 5 : 4); });
+  vrt::shard("signal_reentrant_unregister_int", [th] { reentrant<int(int), unreg_base, true>::run_all("int(int)/unregister", th ? 5 : 4); });
   return vrt::run(argc, argv);
 }
